@@ -57,6 +57,20 @@ func (fsm *FSM) sessionExpiration() time.Duration {
 	return fsm.sessionExpirationDur
 }
 
+// configuredSessionExpiration returns the session expiration of the network
+// configuration which is currently in effect.
+func (fsm *FSM) configuredSessionExpiration() time.Duration {
+	ircServer.ConfigMu.RLock()
+	defer ircServer.ConfigMu.RUnlock()
+	return time.Duration(ircServer.Config.SessionExpiration)
+}
+
+func (fsm *FSM) setSessionExpiration(d time.Duration) {
+	fsm.sessionExpirationMu.Lock()
+	defer fsm.sessionExpirationMu.Unlock()
+	fsm.sessionExpirationDur = d
+}
+
 // sendMessages appends the specified batch of messages to the output,
 // marking them as a response to the incoming message with id 'id' and
 // associating them with session 'session'. IRC clients will
@@ -119,9 +133,6 @@ func (fsm *FSM) applyRobustMessage(msg *robust.Message, i *ircserver.IRCServer, 
 			defer i.ConfigMu.Unlock()
 			i.Config = newCfg
 			i.Config.Revision = msg.Revision
-			fsm.sessionExpirationMu.Lock()
-			defer fsm.sessionExpirationMu.Unlock()
-			fsm.sessionExpirationDur = time.Duration(i.Config.SessionExpiration)
 		}
 	}
 	return nil
@@ -171,6 +182,12 @@ func (fsm *FSM) applyProto(l *pb.RaftLog, msg *robust.Message) interface{} {
 	}()
 
 	err := fsm.applyRobustMessage(msg, ircServer, outputStream)
+	if msg.Type == robust.Config {
+		// Done here instead of in applyRobustMessage because Snapshot()
+		// replays old config messages into a temporary IRCServer, which must
+		// not change the session expiration that is in effect.
+		fsm.setSessionExpiration(fsm.configuredSessionExpiration())
+	}
 
 	appliedMessages.WithLabelValues(msg.Type.String()).Inc()
 
@@ -453,6 +470,9 @@ func (fsm *FSM) decodeProtobuf(b *bufio.Reader) error {
 			}
 			log.Printf("storing RobustState as index %d\n", lastIncludedIndex)
 			fsm.lastSnapshotState[lastIncludedIndex] = state
+			// The config message which set the session expiration might
+			// have been compacted into the state.
+			fsm.setSessionExpiration(fsm.configuredSessionExpiration())
 			continue
 		}
 
@@ -501,6 +521,9 @@ func (fsm *FSM) decodeJson(b *bufio.Reader) error {
 			}
 			log.Printf("storing RobustState as index %d\n", lastIncludedIndex)
 			fsm.lastSnapshotState[lastIncludedIndex] = state
+			// The config message which set the session expiration might
+			// have been compacted into the state.
+			fsm.setSessionExpiration(fsm.configuredSessionExpiration())
 			continue
 		}
 
